@@ -645,6 +645,8 @@ def copy_sign(lhs, rhs, ctx):
     """Element ∆±
     (num, num) -> math.copysign(a, b)
     """
+    if vy_type(lhs, rhs) != (NUMBER_TYPE, NUMBER_TYPE):
+        return vectorise(copy_sign, lhs, rhs, ctx=ctx)
     return multiply(
         vy_abs(lhs, ctx), (-1 if less_than(rhs, 0, ctx) else 1), ctx
     )
